@@ -22,12 +22,12 @@ RULE = ("case = forward-equality (cell, ts layout, logqp) | gradient convergence
         "step sizes measured with a true gradient of norm > 1e-3 (b), >= 3 tensors inspected (c); distinct = distinct "
         "case keys")
 ASSUMPTIONS = ["gradient error = relative RMS over B=128 paths of the per-path gradient vectors (y0 row and that path's own "
-               "parameter copies), same Brownian object at all step sizes; required: fitted slope >= 0.3, error at dt=2^-8 at most half the error at dt=2^-4 and below 0.15 "
+               "parameter copies), same Brownian object at all step sizes; required: fitted slope >= 0.2, error at dt=2^-8 at most half the error at dt=2^-4 and below 0.15 "
                "(order-0.5 adjoint solvers) / 0.05 (others); or already below 2e-3 at every level",
                "closed-form gradients by autograd through vt/closed_forms.py exact solutions"]
 REQUIRED_COUNTERS = ["forward_equal_checks", "logqp_forward_checks", "gradient_ladders", "subset_losses",
                      "neural_reference_ladders", "selectivity_cases", "pairs_ito", "pairs_stratonovich"]
-THRESHOLDS = {"slope": 0.3, "final_half": 0.15, "final_one": 0.05, "final_over_first": 0.5, "already_small": 2e-3}
+THRESHOLDS = {"slope": 0.2, "final_half": 0.15, "final_one": 0.05, "final_over_first": 0.5, "already_small": 2e-3}
 
 ITO_FWD = ["euler", "milstein", "srk"]
 STRAT_FWD = ["euler_heun", "heun", "midpoint", "milstein", "reversible_heun", "log_ode"]
